@@ -78,6 +78,16 @@ CLAIMED = {
         "Trusted: Lean kernel + standard axioms; igraph's bridges (specified, checked against a naive oracle and networkx); float evaluation of the quotients.",
         "DESIGN.md §6 C19",
     ),
+    "C07": (
+        "Lean 4 theorems about a state-machine model of Splink's table cache (request through named key / hashed key / catalog / execute, named stores, drops, forgetting a named entry, "
+        "invalidate_cache = drop every created table + empty the dict, delete_tables_created_by_splink_from_db) and of the realtime SQL cache: for EVERY history every request returns what its SQL "
+        "produces on the current data (cache_transparent, by an invariant), invalidate_cache after a data change makes results reflect the new data, different SQL or uid never share a table, the "
+        "two side conditions are necessary (counterexamples), and the realtime cache is sound iff its key determines the SQL. Tie: random histories of 15 public operations on a real linker - after "
+        "every step predict() equals a fresh linker built from the saved model (oracle), and the observed cache events are replayed through the compiled Lean machine which must predict every hit and "
+        "miss; realtime compare_records cached vs uncached over call sequences.",
+        "Trusted: Lean kernel + standard axioms; sha256 prefix collision-freedom (HashInj); which SQL an operation issues is observed, not modelled; one linker per DatabaseAPI.",
+        "DESIGN.md §6 C07",
+    ),
 }
 PENDING_REASON = "check not built yet (model/theorems/correspondence under construction per DESIGN.md §10b); not claimed until all three exist"
 
